@@ -31,7 +31,9 @@ EXECUTABLE = list(G18.EXECUTABLE) + ['mark.sh', 'hd/mark.sh']
 
 # the files in the sandbox that instructions of the C18 grammar read (its PRELUDE, as text)
 SANDBOX_PRELUDE = [
-    'file -rel-act f.txt = <<EOF\na\nb c\nEOF',
+    # (the marker is none of those the C18 grammar uses: a here-document of a carrier that lost its end marker must
+    # not find another one further down in the file)
+    'file -rel-act f.txt = <<END-OF-PRELUDE-FILE\na\nb c\nEND-OF-PRELUDE-FILE',
     'dir -rel-act d = {\nfile g.txt = "x"\ndir e\n}',
 ]
 # one symbol per name the C18 grammar may refer to (key of G18.SYM -> definition)
